@@ -278,7 +278,7 @@ func runCheck(cfg *runConfig) int {
 	if cfg.fnFilter != "" {
 		fns = []string{cfg.fnFilter}
 	}
-	timeout := 10
+	timeout := 20
 	if cfg.tier == "thorough" {
 		timeout = 60
 	}
@@ -450,6 +450,20 @@ func runCheck(cfg *runConfig) int {
 	writeEvidence(cfg, p, results, sum, covers, pool, wall, violations, known, undecidedSeen)
 	fmt.Printf("xvc: property=%s tier=%s functions=%d obligations=%d discharged=%d known=%d undecided=%d violations=%d load=%.1fs wall=%.1fs solver=%.1fs (max %.2fs) queries=%d\n",
 		cfg.prop, cfg.tier, len(fns), claimed, discharged, len(known), len(undecidedSeen), violations, loadS, wall, pool.totalTime, pool.maxTime, pool.queries)
+	if cfg.verbose {
+		type st struct {
+			n string
+			t float64
+		}
+		var sl []st
+		for _, n := range names {
+			sl = append(sl, st{n, sum[n].time})
+		}
+		sort.Slice(sl, func(i, j int) bool { return sl[i].t > sl[j].t })
+		for i := 0; i < 12 && i < len(sl); i++ {
+			fmt.Fprintf(os.Stderr, "time %.1fs %s (%d instances)\n", sl[i].t, sl[i].n, sum[sl[i].n].n)
+		}
+	}
 	if os.Getenv("XVC_NAMES") != "" {
 		for _, n := range names {
 			fmt.Printf("  OBL %-8s %s (%d)\n", sum[n].status, n, sum[n].n)
